@@ -6,92 +6,92 @@ ROOT = os.path.dirname(os.path.dirname(os.path.abspath(__file__)))
 CLAIMED = {
  "C01": dict(
    technique="reference-model monitor over exhaustive operand enumeration (runtime execution of build_str, independent encoder+decoder oracle, llvm-mc cross-check of the oracle)",
-   text="Runs the real assembler on every ISA-legal operand tuple of every supported instruction form (complete one-word space and reduced-core lds/sts in quick; additionally the complete 2^22 jmp/call and 32x2^16 lds/sts spaces in thorough) and compares the emitted bytes with an independently transcribed ISA encoder and a hand-coded decoder; plus slices that vary what surrounds the instruction: high addresses (behind .org 0x12345), operands arriving through .def aliases, .equ/.set symbols and macro arguments, and 3000 single-line builds on one thread alternating between the reduced core and no device. The oracle itself is cross-checked against LLVM's AVR assembler.",
+   text="Runs the real assembler on every ISA-legal operand tuple of every supported instruction form (complete one-word space and reduced-core lds/sts in quick; additionally the complete 2^22 jmp/call and 32x2^16 lds/sts spaces in thorough) and compares the emitted bytes with an independently transcribed ISA encoder and a hand-coded decoder; plus slices that vary what surrounds the instruction: high addresses (behind .org 0x12345), operands arriving through .def aliases, .equ/.set symbols and macro arguments, and 3000 single-line builds on one thread alternating between the reduced core and no device. The oracle itself is cross-checked against LLVM's AVR assembler. A slice of tuples per form is also assembled behind `.org 0x12345`, through `.def` aliases / `.equ`,`.set` symbols / macro arguments (every other round with the definitions that count written inside .dseg/.eseg, replacing stale ones), and as interleaved single-line builds on one thread alternating reduced core and no device.",
    note="Trusted base: refmodel/isa.rs (manual transcription; decode∘encode self-check; llvm-mc-14 agreement except the reduced-core lds/sts form, which LLVM 14 lacks, and pc-relative fields, which LLVM leaves to fixups). Relative operands are written pc±k; label targets are C03.",
    design="§6 C01"),
  "C03": dict(
    technique="reference-layout monitor over enumerated displacements (runtime execution, independent decoder oracle)",
-   text="Builds programs that put each of the 18 br<cond>, brbs/brbc x 8 flags, rjmp and rcall at every displacement across and beyond both range limits (forward/backward; label, label±k, pc±k targets; random mixes of one/two-word instructions, data and .org gaps in between), at far displacements around ±2^k (pc-relative and labels placed with .org) and inside one-line macro bodies expanded several times back to back; requires: build Ok iff the displacement fits, the emitted word decodes to exactly that displacement, the whole image equals the reference layout.",
+   text="Builds programs that put each of the 18 br<cond>, brbs/brbc x 8 flags, rjmp and rcall at every displacement across and beyond both range limits (forward/backward; label, label±k, pc±k targets; random mixes of one/two-word instructions, data and .org gaps in between), at far displacements around ±2^k (pc-relative and labels placed with .org) and inside one-line macro bodies expanded several times back to back; requires: build Ok iff the displacement fits, the emitted word decodes to exactly that displacement, the whole image equals the reference layout. Every form is also placed inside one-line macro bodies expanded several times, and with the target as a macro parameter (pc-relative text at both limits and one beyond, labels; 0-2 instructions in front of the branch inside the body; macro defined and called inside taken branches).",
    note="Trusted base: refmodel/isa.rs encodings of filler items and decoder. Windows: branches -80..80; rjmp/rcall around ±2048 and 0 (quick) or -2100..2100 (thorough).",
    design="§6 C03"),
  "C04": dict(
    technique="reference-model monitor over bounded-exhaustive out-of-domain operand enumeration (runtime execution of build_str)",
-   text="For every instruction form one operand at a time (thorough: two) leaves its ISA domain: every register r0..r31 in every register position, every number in [lo-300, hi+300] plus ±2^k(±1), ±i64::MAX and i64::MIN in every numeric position, operand-kind substitutions and operand-count errors; for two-operand forms the complete cross product of registers / boundary values; and a device sweep (every device of the table x every form it has x each operand just outside, just inside and far outside its field). Must-reject inputs have to return Err (never Ok, never panic); every Ok image must equal the reference encoding.",
-   note="Legality from refmodel/isa.rs. 8-bit immediates written -128..-1 may be accepted as two's complement or rejected (statement silent). ld/ldd, st/std cross-spellings are not probed except X+q.",
+   text="For every instruction form one operand at a time (thorough: two) leaves its ISA domain: every register r0..r31 in every register position, every number in [lo-300, hi+300] plus ±2^k(±1), ±i64::MAX and i64::MIN in every numeric position, operand-kind substitutions and operand-count errors; for two-operand forms the complete cross product of registers / boundary values; and a device sweep (every device of the table x every form it has x each operand just outside, just inside and far outside its field). Must-reject inputs have to return Err (never Ok, never panic); every Ok image must equal the reference encoding. Register, cross-product and kind-confusion lines (and a quarter of the numeric windows; thorough: all) are repeated with registers through .def aliases and numbers through .equ symbols, and as a macro body with the operands as arguments; a device sweep repeats the numeric guards under every device. Kind confusions include malformed literals and the ld/ldd, st/std cross forms.",
+   note="Legality from refmodel/isa.rs. 8-bit immediates written -128..-1 may be accepted as two's complement or rejected (statement silent). `ldd Rd, Y` without displacement is not probed.",
    design="§6 C04"),
  "C12": dict(
    technique="boundary-enumeration monitor against vendor part-file figures (runtime execution of build_str/build_file)",
-   text="Every device of the table and the no-device default x flash/EEPROM/RAM x usage capacity-1/capacity/capacity+1 x several fill methods must build or fail exactly at the limit and report the device's sizes and RAM usage; the same with capacities read from the #pragma AVRPART MEMORY lines of every shipped part-definition file; RAM start via data-segment labels; unknown/second .device must fail; usages of 2^16..2^40 (+k) units, whose low bits look legal, must fail (run in isolated workers with a heap cap). Complete for the stated grid.",
+   text="Every device of the table and the no-device default x flash/EEPROM/RAM x usage capacity-1/capacity/capacity+1 x several fill methods must build or fail exactly at the limit and report the device's sizes and RAM usage; the same with capacities read from the #pragma AVRPART MEMORY lines of every shipped part-definition file; RAM start via data-segment labels; unknown/second .device must fail; usages of 2^16..2^40 (+k) units, whose low bits look legal, must fail (run in isolated workers with a heap cap). Complete for the stated grid. The .device line is also reached through a called macro, a nested macro, a taken .if, the .else of an untaken .ifdef, and followed by .equ definitions of the part files' symbol names with misleading values; usages of 2^16..2^40 units run in isolated workers.",
    note="Independent data: includes/*def.inc pragmas. For rows without a part file and the defaults only self-consistency (enforced == reported == row). 17 shipped part files do not assemble (pragma with `lpm rd,z+`); for those the figures are checked via `.device <name>`.",
    design="§6 C12"),
  "C13": dict(
    technique="complete device x instruction-form enumeration monitor (runtime execution, flag→form oracle + reference encoder)",
-   text="Every device of the table x every instruction form x lowest/highest legal operands (thorough + 256 random tuples): a form forbidden by a feature flag of the device must fail; every other form must assemble to the no-device reference encoding (one-word lds/sts on reduced cores); plus whole programs per device (allowed instructions only must build to the concatenated encodings; each forbidden form placed after allowed instructions incl. allowed forms of the same mnemonic must fail). Complete for the stated grid.",
+   text="Every device of the table x every instruction form x lowest/highest legal operands (thorough + 256 random tuples): a form forbidden by a feature flag of the device must fail; every other form must assemble to the no-device reference encoding (one-word lds/sts on reduced cores); plus whole programs per device (allowed instructions only must build to the concatenated encodings; each forbidden form placed after allowed instructions incl. allowed forms of the same mnemonic must fail). Complete for the stated grid. Whole programs per device put every forbidden form behind allowed instructions (also of the same mnemonic) with inert lines in between, and behind every kind of inert line (.csegsize, #pragma, unused definitions, unselected .device, other segments with content) right after .device.",
    note="Flag→forms map transcribed from the DisabledOptions doc comments; flags are read from the DEVICES table at run time, as the statement prescribes.",
    design="§6 C13"),
  "C05": dict(
    technique="reference-evaluator monitor over generated and enumerated expressions (runtime execution, i128 oracle, observation through emitted .dq bytes)",
-   text="Evaluates expressions on the real assembler through `.dq <expr>` - written directly and as the argument of a macro - and compares with an i128 reference evaluator: random trees over all 18 binary / 3 unary operators, 8 functions, literals in every spelling, .equ/.set/label/pc symbols, rendered with only the parentheses the documented precedence table requires; the complete operator x boundary-operand grid; every ordered operator pair in both association shapes. Failing cases are shrunk to the smallest failing sub-expression on the real code.",
+   text="Evaluates expressions on the real assembler through `.dq <expr>` - written directly and as the argument of a macro - and compares with an i128 reference evaluator: random trees over all 18 binary / 3 unary operators, 8 functions, literals in every spelling, .equ/.set/label/pc symbols, rendered with only the parentheses the documented precedence table requires; the complete operator x boundary-operand grid; every ordered operator pair in both association shapes. Failing cases are shrunk to the smallest failing sub-expression on the real code. Every operator pair and a quarter of the random trees are also passed as macro arguments: plain, handed on to a second macro, as operand of a larger expression (2 * @0) and both at once on the line of a nested call. Symbol names include ones that begin like registers, pointer registers, functions and pc.",
    note="Trusted base: refmodel/expr.rs. Tolerated where the statement is silent: `<<`/exp2 leaving i64 or counts >= 64 may fail or give the low 64 bits; `>>` of negatives arithmetic or logical; i64::MIN % -1 may fail or be 0.",
    design="§6 C05"),
  "C07": dict(
    technique="independent-reader monitor over enumerated image lengths (runtime execution of the HEX writers, strict Intel HEX decoder oracle)",
-   text="Calls write_code_hex/write_eeprom_hex on images of every length 0..600 and every length within ±20 of each 64 KiB multiple up to the largest flash in the device table (thorough: more lengths up to 8 MiB and the full build_str→writer pipeline), with position-dependent contents, and on the same lengths repeatedly with different contents (one BuildResult patched in place, fresh objects, both writers alternating); each file is decoded with a strict independent reader: only well-formed records, valid checksums, one final EOF, every image byte exactly once at its address, none elsewhere.",
+   text="Calls write_code_hex/write_eeprom_hex on images of every length 0..600 and every length within ±20 of each 64 KiB multiple up to the largest flash in the device table (thorough: more lengths up to 8 MiB and the full build_str→writer pipeline), with position-dependent contents, and on the same lengths repeatedly with different contents (one BuildResult patched in place, fresh objects, both writers alternating); each file is decoded with a strict independent reader: only well-formed records, valid checksums, one final EOF, every image byte exactly once at its address, none elsewhere. The declared memory sizes of the result vary per image; half of the images hold whole records of 0xFF/0x00/':'/CR/LF at the start, the end and around every 64 KiB boundary; every device of the table is built from source with both memories filled to the last byte and written.",
    note="Trusted base: refmodel/ihex.rs (self-tested on hand-made good and bad files).",
    design="§6 C07"),
  "C02": dict(
    technique="reference-layout monitor over generated programs + hook-trace checker (runtime execution of build_str, pass-1/pass-2 event log)",
-   text="Random layout programs (interleaved .cseg/.dseg/.eseg, both instruction lengths, odd/even .db, word data, .byte, own-line/inline labels, forward .org, devices with different RAM starts and the reduced core) are assembled by the real tool; both images, RAM extent and sizes must equal an independent IR-level reference layout (labels are exposed through `.dd label` tables), and the hook trace must show every pass-1 size equal to the pass-2 emission and every label event equal to the reference value. 1 in 12 programs carries a backward .org that must fail.",
-   note="Trusted base: refmodel/layout.rs + isa.rs; device figures from DEVICES. Every generated .org is directly followed by an item of its segment. Every second valid program is also rebuilt with runs of its lines moved into argument-less macros. Two open known findings (`.org 0` after code, `.byte <non-literal>`), see KNOWN_FINDINGS.txt.",
+   text="Random layout programs (interleaved .cseg/.dseg/.eseg, both instruction lengths, odd/even .db, word data, .byte, own-line/inline labels, forward .org, devices with different RAM starts and the reduced core) are assembled by the real tool; both images, RAM extent and sizes must equal an independent IR-level reference layout (labels are exposed through `.dd label` tables), and the hook trace must show every pass-1 size equal to the pass-2 emission and every label event equal to the reference value. 1 in 12 programs carries a backward .org that must fail. A third of the .org lines are followed by an excursion to another segment before the first item arrives; every second valid program is rebuilt with runs of its lines moved into argument-less macros.",
+   note="Trusted base: refmodel/layout.rs + isa.rs; device figures from DEVICES. Every second valid program is also rebuilt with runs of its lines moved into argument-less macros. Two open known findings (`.org 0` after code, `.byte <non-literal>`), see KNOWN_FINDINGS.txt.",
    design="§6 C02"),
  "C06": dict(
    technique="reference-model monitor over generated data programs + boundary grid (runtime execution, byte-exact oracle, hook-trace checker)",
-   text="Programs of .db/.dw/.dd/.dq lines in flash and EEPROM with 0-12 operands mixing boundary literals, computed values, symbols, random expressions and strings (empty, comment look-alikes, non-ASCII), `.byte n` between EEPROM data, and single faults (value that does not fit, string in a word directive, data in .dseg) must produce exactly the reference bytes or fail; plus the complete width x boundary-value grid in both segments.",
+   text="Programs of .db/.dw/.dd/.dq lines in flash and EEPROM with 0-12 operands mixing boundary literals, computed values, symbols, random expressions and strings (empty, comment look-alikes, non-ASCII), `.byte n` between EEPROM data, and single faults (value that does not fit, string in a word directive, data in .dseg) must produce exactly the reference bytes or fail; plus the complete width x boundary-value grid in both segments. Every second valid program is rebuilt with runs of lines moved into macros.",
    note="Trusted base: refmodel/layout.rs data rules; fits = signed or unsigned representation of the element width.",
    design="§6 C06"),
  "C08": dict(
    technique="metamorphic + reference monitor over enumerated truth assignments and random nested chains, with a hook-trace checker of lines reaching the assembling path",
-   text="For all truth assignments of all chain shapes up to 3 arms (thorough 5), nested and with hostile unselected content, and for random chains nested up to 4 deep: build(full) must equal build(program with unselected and conditional lines blanked) and the reference image/messages; the LINE hook trace must contain every selected line and no line of an unselected branch. Chains hosted in macro bodies that test #define flags set by the expansions themselves are compared with the program in which every call is replaced by its body.",
+   text="For all truth assignments of all chain shapes up to 3 arms (thorough 5), nested and with hostile unselected content, and for random chains nested up to 4 deep: build(full) must equal build(program with unselected and conditional lines blanked) and the reference image/messages; the LINE hook trace must contain every selected line and no line of an unselected branch. Chains hosted in macro bodies that test #define flags set by the expansions themselves are compared with the program in which every call is replaced by its body. Also: chains hosted in macro bodies that test flags the expansions set; macros with an optional last parameter (unselected branches name parameters the call does not pass); malformed nested blocks inside unselected branches; every program once more with labels in front of its conditional directives.",
    note="Trusted base: refmodel/layout.rs conditional semantics and the IR printer (one line per primitive node). Unselected branches contain .error, clobbering definitions, duplicate labels, garbage, unterminated .macro, missing .include, other .device.",
    design="§6 C08"),
  "C09": dict(
    technique="metamorphic monitor: macro program vs IR-level hand expansion vs reference image (runtime execution of build_str)",
-   text="Random programs with 1-4 macro definitions (0-10 parameters; register, index, displacement and expression parameters; parameters inside larger expressions; .if on a parameter; nested calls; segment switches incl. as the last line of a body; emit-once blocks and #define flags shared between macros; mixed-case names) and 1-6 calls in any letter case (also repeated verbatim), before or after the definition, must build to exactly what the hand-expanded program (expanded on the IR, arguments substituted as values) builds to and to the reference image; calls of undefined macros or with an omitted used argument must fail; fixed probes cover the argument shapes the statement names.",
+   text="Random programs with 1-4 macro definitions (0-10 parameters; register, index, displacement and expression parameters; parameters inside larger expressions; .if on a parameter; nested calls; segment switches incl. as the last line of a body; emit-once blocks and #define flags shared between macros; mixed-case names) and 1-6 calls in any letter case (also repeated verbatim), before or after the definition, must build to exactly what the hand-expanded program (expanded on the IR, arguments substituted as values) builds to and to the reference image; calls of undefined macros or with an omitted used argument must fail; fixed probes cover the argument shapes the statement names. Plus 'placing bodies' (.org as first/middle/last body line in all three segments, nested, the caller going on behind the call with labels referenced across calls, calls written under .dseg/.eseg) compared with the program written out.",
    note="Trusted base: refmodel/layout.rs::expand_macros + IR printer. A parameter used inside a larger expression is only called with atomic/parenthesised/function-call arguments; labels and messages inside bodies are not generated; macros that set or test #define flags are only called from the top level. Three open known findings macro/state/* (one root cause), see KNOWN_FINDINGS.txt.",
    design="§6 C09"),
  "C10": dict(
    technique="reference-resolution monitor + single-symbol mutation testing of generated programs (runtime execution; LOOKUP hook events as evidence)",
-   text="Valid programs defining and using labels (3 segments), .equ (chained, forward), .set (reassignment chains) and .def/.undef aliases in independently random letter case must build to the reference resolution; every program is mutated one symbol at a time — each referenced definition deleted, each label duplicated, each alias used after its .undef, undefined names in data/instruction/alias position (all must fail) — and every alias replaced by its register (identical image).",
-   note="Trusted base: refmodel/layout.rs binding rules. Re-.def of a live alias without .undef and name clashes across kinds are not generated (not specified).",
+   text="Valid programs defining and using labels (3 segments), .equ (chained, forward), .set (reassignment chains) and .def/.undef aliases in independently random letter case must build to the reference resolution; every program is mutated one symbol at a time — each referenced definition deleted, each label duplicated, each alias used after its .undef, undefined names in data/instruction/alias position (all must fail) — and every alias replaced by its register (identical image). Further mutants: every .equ defined a second time, every label also by .equ and every .equ also as a label (must fail); a live alias redefined on another register (refused or rebound, never the old register). Names include ones that begin like registers, functions and pc.",
+   note="Trusted base: refmodel/layout.rs binding rules. A second .def of a live alias may be refused or rebind the alias; silently keeping the old register is a violation.",
    design="§6 C10"),
  "C11": dict(
    technique="metamorphic + reference monitor over generated file trees on disk (runtime execution of build_file; INCLUDE hook events as evidence)",
-   text="Generated programs are cut at item boundaries into trees of files (up to 5 deep) written to a scratch directory, each file placed by one documented search rule (absolute path, includer's directory, caller-supplied directory, earlier absolute or relative .includepath); build_file(tree) must equal build_str(flattened program) and the reference (images, sizes, RAM extent, messages with per-file line numbers); `.exit` tails with garbage must have no effect; removing one reachable file must fail with an error naming it.",
-   note="Unique file names per tree; an .includepath inside an included file is only relied on for that file's own includes; chains and macro definitions are not cut across files. Trusted base: refmodel/layout.rs include/.exit semantics.",
+   text="Generated programs are cut at item boundaries into trees of files (up to 5 deep) written to a scratch directory, each file placed by one documented search rule (absolute path, includer's directory, caller-supplied directory, earlier absolute or relative .includepath); build_file(tree) must equal build_str(flattened program) and the reference (images, sizes, RAM extent, messages with per-file line numbers); `.exit` tails with garbage must have no effect; removing one reachable file must fail with an error naming it. Include names are written as name, ./name, dir/name, ./dir/name, ../dir/name under every rule; further rules: path as written from the working directory, .includepath issued by a file included earlier, a directory bearing the file's name at the path as written; half of the trees hold a file included two or three times that guards parts of itself; after the missing-file build the file is put back and the tree rebuilt on the same thread.",
+   note="Unique file names per tree; the random splitter never cuts chains or macro definitions across files and puts no .include into macro bodies - those deviate on the pinned tree and are open known findings re-observed by fixed witness trees (KNOWN_FINDINGS.txt). Trusted base: refmodel/layout.rs include/.exit semantics.",
    design="§6 C11"),
  "C14": dict(
    technique="metamorphic monitor: canonical vs randomly respelled print of the same program IR (runtime execution of build_str)",
-   text="Programs from the layout, data, conditional, macro and symbol generators (valid and failing) are printed canonically and 8 (thorough 16) times with randomised meaning-free spelling (comments of all three kinds with hostile texts, blank/comment-only lines, LF/CRLF, letter case, literal radix, blanks and tabs around every token class incl. after unary operators and in displacements); images, sizes, RAM extent, Ok/Err status and messages (line numbers removed) must be identical.",
+   text="Programs from the layout, data, conditional, macro and symbol generators (valid and failing) are printed canonically and 8 (thorough 16) times with randomised meaning-free spelling (comments of all three kinds with hostile texts, blank/comment-only lines, LF/CRLF, letter case, literal radix, blanks and tabs around every token class incl. after unary operators and in displacements); images, sizes, RAM extent, Ok/Err status and messages (line numbers removed) must be identical. Comment texts include /*, */, @0, quotes, backslashes, non-ASCII, directive look-alikes and 600 operator characters; block comments are followed by blanks and further comments; base programs include macro bodies whose lines differ only in the letter case of a string or character literal; the repository's own tests/*.asm are respelled at text level.",
    note="Respelling is done by the IR printer, so strings, character literals and macro bodies are never damaged. Directive names, #define names, macro names, label definitions and indentation before a label are not respelled (not listed by the statement).",
    design="§6 C14"),
  "C15": dict(
    technique="fault-injection monitor over every line position x fault kind of generated valid programs (runtime execution of build_str, error-text oracle)",
-   text="Into valid base programs one faulty line of each of 23 kinds (incl. undefined names in operands that cannot change the value: 0 && x, 1 || x, 0 * x) is inserted at every position on the assembling path (top level and inside taken branches); the build must fail and the error text must contain the token `line: p`. Message placements (.message/.warning at top level and in taken/untaken branches) must leave the images unchanged and yield exactly the expected message list (text, line, order, kinds distinguishable); .error must fail wherever assembled.",
-   note="Programs start with a comment so p >= 2 (PEG errors embed `line: 1`); for duplicate labels either defining line is accepted; no macros (attribution not specified).",
+   text="Into valid base programs one faulty line of each of 24 kinds (incl. undefined names in operands that cannot change the value: 0 && x, 1 || x, 0 * x) is inserted at every position on the assembling path (top level and inside taken branches); the build must fail and the error text must contain the token `line: p`. Message placements (.message/.warning at top level and in taken/untaken branches) must leave the images unchanged and yield exactly the expected message list (text, line, order, kinds distinguishable); .error must fail wherever assembled. Every fault kind is repeated inside the body of a called macro behind blank and comment-only lines (the body line must be named), .message/.warning lines of bodies must carry their own line numbers, and an existing label is defined a second time behind every kind of segment boundary.",
+   note="Programs start with a comment so p >= 2 (PEG errors embed `line: 1`); for duplicate labels either defining line is accepted; a fault inside a macro body is attributed to the body line it is written on; the order of body messages relative to top-level ones is an open known finding (KNOWN_FINDINGS.txt).",
    design="§6 C15"),
  "C16": dict(
    technique="crash/hang/memory monitoring of isolated worker processes: panic hook + catch_unwind, counting allocator with hard cap, hook step budget, signal/exit-status supervision; bounded-exhaustive dictionary lines, structure-aware hostile programs, mutation fuzzing (thorough: + valgrind memcheck and Miri legs)",
-   text="Every case is built alone in a worker process (8 MiB main-thread stack) under a panic hook, a counting allocator capped at 256 MiB live heap, a hook step budget of 5e7 (deterministic hang verdict) and signal supervision: all one-line programs head x operand tuples of length 0-2 over a 47-entry hostile dictionary (complete; length 3 sampled in quick, complete in thorough), ~160 structure-aware hostile programs (unbalanced/deep conditionals and macros, recursive macros/.equ, expression ladders to depth 30000, absurd .org/.byte, 60 KB tokens, self-including files) and byte/token mutations of valid generated programs. Any panic, signal death, cap or budget hit is a violation; abnormal verdicts are reproduced alone before they are reported.",
+   text="Every case is built alone in a worker process (8 MiB main-thread stack) under a panic hook, a counting allocator capped at 256 MiB live heap, a hook step budget of 5e7 (deterministic hang verdict) and signal supervision: all one-line programs head x operand tuples of length 0-2 over a 50-entry hostile dictionary (complete; length 3 sampled in quick, complete in thorough), ~160 structure-aware hostile programs (unbalanced/deep conditionals and macros, recursive macros/.equ, expression ladders to depth 30000, absurd .org/.byte, 60 KB tokens, self-including files) and byte/token mutations of valid generated programs. Any panic, signal death, cap or budget hit is a violation; abnormal verdicts are reproduced alone before they are reported. Dictionary lines of length 0-1 (directives 2; thorough all of length 2) are repeated inside a called macro body, a taken, a skipped and an .else branch; structured cases include multi-byte/zero-width/control characters next to every special character in every lexical position (also in macro bodies and as macro argument) and symbol cycles / doubling ladders through every function and operator kind.",
    note="\"Promptly\" is restated as <= 5e7 hook steps for inputs <= 64 KiB and \"out of proportion\" as > 256 MiB live heap; a wall-clock backstop firing alone is inconclusive. One open known finding (exponential macro expansion), see KNOWN_FINDINGS.txt.",
    design="§6 C16"),
  "C18": dict(
    technique="black-box process monitor of the real CLI binary: exit status, output capture, directory snapshots with sentinels, independent HEX decoding against the in-process library result (thorough: release binary and strace syscall log)",
-   text="The avra-rs binary is rebuilt from the working tree and run in fresh scratch directories over 15 sources x 5 stems x 6 -o/-e/-v option sets and 5 output faults on either output: on a failing build the exit status must be non-zero, something must be printed and no file may be created, removed or altered (sentinels at the default output places); on success the flash/EEPROM HEX files must sit at the documented paths and decode to exactly the images build_file returns in process; unwritable outputs must be reported with a non-zero status. Thorough adds the release binary and an strace leg showing that failing builds open nothing for writing.",
+   text="The avra-rs binary is rebuilt from the working tree and run in fresh scratch directories over 15 sources x 5 stems x 6 -o/-e/-v option sets and 5 output faults on either output: on a failing build the exit status must be non-zero, something must be printed and no file may be created, removed or altered (sentinels at the default output places); on success the flash/EEPROM HEX files must sit at the documented paths and decode to exactly the images build_file returns in process; unwritable outputs must be reported with a non-zero status. Thorough adds the release binary and an strace leg showing that failing builds open nothing for writing. Plus source names that are not valid UTF-8 and option sets that send both images to one path.",
    note="Expected images from the library in process (same file); decoding with refmodel/ihex.rs. An empty flash image producing no file is accepted. HOME/XDG_CONFIG_HOME point into the scratch directory.",
    design="§6 C18"),
  "C17": dict(
    technique="history/schedule monitor with process-isolated reference results: sequential histories, barrier-released concurrent threads with injected yields, fresh processes (new hash keys), BUILD-hook invariant at every build start, DEVICES fingerprint, Miri data-race/UB interpreter on a concurrent workload",
-   text="For a pool of ~67 programs whose symbols, macros, #defines, aliases, devices and messages collide by name across programs (valid and failing, build_str and build_file with a shared include directory) the isolated result of each is taken from 8 (thorough 64) fresh processes - which must agree among themselves (hash-order independence) - and must be reproduced exactly in 200 (20000) random sequential histories of 20-100 builds and in 60 (2000) concurrent rounds of 2-16 threads, half with yields injected at the hooks; the BUILD hook must show empty symbol tables and the default device at every build start; the device table's fingerprint must not change; Miri interprets a 3-thread workload under 2 (32) scheduler seeds with its data-race detector.",
+   text="For a pool of ~120 programs whose symbols, macros, #defines, aliases, devices and messages collide by name across programs (valid and failing, build_str and build_file with a shared include directory) the isolated result of each is taken from 8 (thorough 64) fresh processes - which must agree among themselves (hash-order independence) - and must be reproduced exactly in 200 (20000) random sequential histories of 20-100 builds and in 60 (2000) concurrent rounds of 2-16 threads, half with yields injected at the hooks; the BUILD hook must show empty symbol tables and the default device at every build start; the device table's fingerprint must not change; Miri interprets a 3-thread workload under 2 (32) scheduler seeds with its data-race detector. The pool also holds builds that end at the assembler's own limits (evaluation steps, macro nesting, line complexity) with well-behaved twins, and failing programs whose unknown name begins several known names.",
    note="Builds share only the immutable DEVICES table, so the monitors aim at making introduced sharing visible (name collisions, device selection, overlap accounting from global sequence numbers: tens of thousands of overlapping build pairs per run), not at enumerating schedules. Fingerprint = hash of the full BuildResult / error text.",
    design="§6 C17"),
 }
